@@ -2,6 +2,7 @@ package props
 
 import (
 	"fmt"
+	"go/token"
 	"regexp"
 	"strings"
 
@@ -149,6 +150,32 @@ func C08(p *core.Program, r *core.Report) {
 		}
 	}
 	r.Floor("E8", 5)
+
+	// E9: a wrapper (div, section, header, heading) is dropped as empty - and the media inside it
+	// with it - only if it has no text and each of its CHILDREN is a line break or a rule. The
+	// number of children must not be compared with a count of DESCENDANTS (the Readability idiom
+	// `children.length == getElementsByTagName("br").length + ...` takes <div><span><img><br></span>
+	// </div> for empty: one child, one br somewhere below).
+	for _, fn := range p.ModFunctions(false) {
+		if core.FnPkgPath(fn) != core.ExpandKey(converterPkg) {
+			continue
+		}
+		cn := core.NewCanon(p)
+		for _, in := range instrsOf(fn) {
+			bo, ok := in.(*ssa.BinOp)
+			if !ok || (bo.Op != token.EQL && bo.Op != token.NEQ) {
+				continue
+			}
+			x, y := cn.Of(bo.X), cn.Of(bo.Y)
+			for _, pair := range [][2]string{{x, y}, {y, x}} {
+				if m := regexp.MustCompile(`^len\(dom\.Children\((.*)\)\)$`).FindStringSubmatch(pair[0]); m != nil {
+					r.Add("E9", core.ShortKey(fn)+": the number of children is compared with a count of children", p.Pos(bo.Pos()),
+						!strings.Contains(pair[1], "dom.GetElementsByTagName("+m[1]+",") && !strings.Contains(pair[1], "dom.QuerySelectorAll("+m[1]+","),
+						"compared with "+shortVal(pair[1]))
+				}
+			}
+		}
+	}
 	// ---- E6: media are recognised at all: every extractor is offered every candidate node
 	checkExtractorDispatch(p, r, "E6")
 
